@@ -87,11 +87,67 @@ macro_rules! c04_fmt {
     };
 }
 
+// the same harness with the external hex-simd crate replaced by its documented contract (K6)
+#[cfg(feature = "opt-simd-convert-hex")]
+macro_rules! c04_fmt_k6 {
+    ($name:ident, $ty:ty, $ck:literal, $n:literal, $l:literal, $with:literal, $unw:literal) => {
+        #[kani::proof]
+        #[kani::unwind($unw)]
+        #[kani::stub(crate::verif::hexsimd::hs_encode, crate::verif::hexsimd::stub_hex_encode)]
+        #[kani::stub(crate::verif::hexsimd::hs_decode, crate::verif::hexsimd::stub_hex_decode)]
+        fn $name() {
+            let bytes: [u8; $n] = kani::any();
+            let h = <$ty>::try_from(&bytes).unwrap();
+            assert!(<$ty>::LEN_IN_STR == $l && <$ty>::LEN_IN_STR_EXCEPT_PREFIX == $l - 2);
+            assert!(<$ty>::SIZE_IN_BYTES == $n);
+            let prefix = if $with { HexStringPrefix::WithVersion } else { HexStringPrefix::Empty };
+            let off = if $with { 2 } else { 0 };
+            let mut buf = [0u8; $l];
+            let n = h.store_into_str_bytes(&mut buf, prefix).unwrap();
+            assert!(n == $l - 2 + off);
+            // canonical text: optional "T1", then uppercase digits of the reference form
+            if $with {
+                assert!(buf[0] == b'T' && buf[1] == b'1');
+            }
+            let k: usize = kani::any();
+            kani::assume(k < $l - 2);
+            let c = buf[off + k];
+            assert!(c == ref_text_char(&bytes, $ck + 2, k));
+            assert!((c >= b'0' && c <= b'9') || (c >= b'A' && c <= b'F'));
+        }
+    };
+}
+
 // $with: text carries the "T1" prefix; $auto: parse with prefix auto-detection (None)
 macro_rules! c04_rt {
     ($name:ident, $ty:ty, $n:literal, $l:literal, $with:literal, $auto:literal, $unw:literal) => {
         #[kani::proof]
         #[kani::unwind($unw)]
+        fn $name() {
+            let bytes: [u8; $n] = kani::any();
+            let h = <$ty>::try_from(&bytes).unwrap();
+            let prefix = if $with { HexStringPrefix::WithVersion } else { HexStringPrefix::Empty };
+            let mut buf = [0u8; $l];
+            h.store_into_str_bytes(&mut buf, prefix).unwrap();
+            let s: &[u8] = if $with { &buf[..] } else { &buf[..$l - 2] };
+            let h2 = <$ty>::from_str_bytes(s, if $auto { None } else { Some(prefix) }).unwrap();
+            let mut out = [0u8; $n];
+            h2.store_into_bytes(&mut out).unwrap();
+            let j: usize = kani::any();
+            kani::assume(j < $n);
+            assert!(out[j] == bytes[j]);
+        }
+    };
+}
+
+// the same harness with the external hex-simd crate replaced by its documented contract (K6)
+#[cfg(feature = "opt-simd-convert-hex")]
+macro_rules! c04_rt_k6 {
+    ($name:ident, $ty:ty, $n:literal, $l:literal, $with:literal, $auto:literal, $unw:literal) => {
+        #[kani::proof]
+        #[kani::unwind($unw)]
+        #[kani::stub(crate::verif::hexsimd::hs_encode, crate::verif::hexsimd::stub_hex_encode)]
+        #[kani::stub(crate::verif::hexsimd::hs_decode, crate::verif::hexsimd::stub_hex_decode)]
         fn $name() {
             let bytes: [u8; $n] = kani::any();
             let h = <$ty>::try_from(&bytes).unwrap();
@@ -274,6 +330,93 @@ macro_rules! c05_parse {
     ($name:ident, $ty:ty, $ck:literal, $n:literal, $l:literal, $len:literal, $unw:literal, $strict:literal) => {
         #[kani::proof]
         #[kani::unwind($unw)]
+        fn $name() {
+            let s: [u8; $len] = kani::any();
+            let m: u8 = kani::any();
+            kani::assume(m < 3);
+            let r = <$ty>::from_str_bytes(&s, mode_of(m));
+            let len_ok = match m {
+                0 => $len == $l || $len == $l - 2,
+                1 => $len == $l - 2,
+                _ => $len == $l,
+            };
+            if !len_ok {
+                assert!(r == Err(ParseError::InvalidStringLength));
+            } else {
+                let has_prefix = $len == $l;
+                let off = if has_prefix { 2 } else { 0 };
+                let prefix_ok = !has_prefix || (s[0] == b'T' && s[1] == b'1');
+                let mut all_hex = true;
+                let mut i = off;
+                while i < $len {
+                    if !ref_is_hex(s[i]) {
+                        all_hex = false;
+                    }
+                    i += 1;
+                }
+                // strict extras: an error "applies" as soon as the digits of that field are
+                // hexadecimal and denote an impossible value (later characters may be anything)
+                let digits = &s[off..];
+                let mut strict_ck_ok = true;
+                let mut strict_len_ok = true;
+                if $strict {
+                    if $n == 15 {
+                        if let Some(v) = ref_decode_byte(digits, $ck + 2, 0) {
+                            strict_ck_ok = v <= 48;
+                        }
+                    }
+                    if let Some(v) = ref_decode_byte(digits, $ck + 2, $ck) {
+                        strict_len_ok = v < 170;
+                    }
+                }
+                let wellformed = prefix_ok && all_hex && strict_ck_ok && strict_len_ok;
+                match r {
+                    Ok(h) => {
+                        assert!(wellformed);
+                        let mut out = [0u8; $n];
+                        h.store_into_bytes(&mut out).unwrap();
+                        let j: usize = kani::any();
+                        kani::assume(j < $n);
+                        assert!(Some(out[j]) == ref_decode_byte(digits, $ck + 2, j));
+                    }
+                    Err(e) => {
+                        assert!(!wellformed);
+                        assert!(e != ParseError::InvalidStringLength);
+                        // the reported error is one that applies
+                        match e {
+                            ParseError::InvalidPrefix => assert!(!prefix_ok),
+                            ParseError::InvalidCharacter => assert!(!all_hex),
+                            ParseError::InvalidChecksum => assert!($strict && !strict_ck_ok),
+                            ParseError::LengthIsTooLarge => assert!($strict && !strict_len_ok),
+                            _ => assert!(false),
+                        }
+                        if $strict && prefix_ok && all_hex {
+                            if strict_ck_ok {
+                                assert!(e == ParseError::LengthIsTooLarge);
+                            }
+                            if strict_len_ok {
+                                assert!(e == ParseError::InvalidChecksum);
+                            }
+                        }
+                    }
+                }
+            }
+            let never_ok = !($len == $l || $len == $l - 2);
+            kani::cover!(r.is_ok() || never_ok);
+            kani::cover!(r == Err(ParseError::InvalidCharacter) || never_ok);
+            kani::cover!(r == Err(ParseError::InvalidStringLength));
+        }
+    };
+}
+
+// the same harness with the external hex-simd crate replaced by its documented contract (K6)
+#[cfg(feature = "opt-simd-convert-hex")]
+macro_rules! c05_parse_k6 {
+    ($name:ident, $ty:ty, $ck:literal, $n:literal, $l:literal, $len:literal, $unw:literal, $strict:literal) => {
+        #[kani::proof]
+        #[kani::unwind($unw)]
+        #[kani::stub(crate::verif::hexsimd::hs_encode, crate::verif::hexsimd::stub_hex_encode)]
+        #[kani::stub(crate::verif::hexsimd::hs_decode, crate::verif::hexsimd::stub_hex_decode)]
         fn $name() {
             let s: [u8; $len] = kani::any();
             let m: u8 = kani::any();
@@ -644,6 +787,52 @@ macro_rules! c14_bufc {
         }
     };
 }
+
+// the same harness with the external hex-simd crate replaced by its documented contract (K6)
+#[cfg(feature = "opt-simd-convert-hex")]
+macro_rules! c14_bufc_k6 {
+    ($name:ident, $ty:ty, $n:literal, $l:literal, $form:literal, $len:literal, $unw:literal) => {
+        #[kani::proof]
+        #[kani::unwind($unw)]
+        #[kani::stub(crate::verif::hexsimd::hs_encode, crate::verif::hexsimd::stub_hex_encode)]
+        #[kani::stub(crate::verif::hexsimd::hs_decode, crate::verif::hexsimd::stub_hex_decode)]
+        fn $name() {
+            let bytes: [u8; $n] = kani::any();
+            let h = <$ty>::try_from(&bytes).unwrap();
+            let need: usize = match $form {
+                0 => $n,
+                1 => $l - 2,
+                _ => $l,
+            };
+            let mut buf: [u8; $l + 64] = kani::any();
+            let prior = buf;
+            let r = match $form {
+                0 => h.store_into_bytes(&mut buf[..$len]),
+                1 => h.store_into_str_bytes(&mut buf[..$len], HexStringPrefix::Empty),
+                _ => h.store_into_str_bytes(&mut buf[..$len], HexStringPrefix::WithVersion),
+            };
+            let k: usize = kani::any();
+            kani::assume(k < $l + 64);
+            if $len < need {
+                assert!(r == Err(OperationError::BufferIsTooSmall));
+                assert!(buf[k] == prior[k]);
+            } else {
+                assert!(r == Ok(need));
+                if k >= need {
+                    assert!(buf[k] == prior[k]);
+                } else {
+                    let mut exact = [0u8; $l];
+                    let _ = match $form {
+                        0 => h.store_into_bytes(&mut exact[..need]),
+                        1 => h.store_into_str_bytes(&mut exact[..need], HexStringPrefix::Empty),
+                        _ => h.store_into_str_bytes(&mut exact[..need], HexStringPrefix::WithVersion),
+                    };
+                    assert!(buf[k] == exact[k]);
+                }
+            }
+        }
+    };
+}
 //@ h=c14_short_hex_0 props=C14 cfgs=K1,K2 tier=q t=600 | funcs: Short::store_into_str_bytes(Empty) with the table-based encoders | bound: all values x arbitrary prior content, buffer length 0 (concrete)
 c14_bufc!(c14_short_hex_0, Short, 15, 32, 1, 0, 40);
 //@ h=c14_short_hex_28 props=C14 cfgs=K1,K2 tier=q t=600 | funcs: Short::store_into_str_bytes(Empty) with the table-based encoders | bound: all values x arbitrary prior content, buffer length 28 (concrete)
@@ -704,3 +893,37 @@ c14_buf!(c14_normall_bin, NormalWithLongChecksum, 37, 76, 0, 80);
 c14_buf!(c14_longl_bin, LongWithLongChecksum, 69, 140, 0, 144);
 //@ h=c14_normal_t1 props=C14 cfgs=K3 tier=t t=1800 | funcs: Normal::store_into_str_bytes(WithVersion), nibble-table encoders | bound: all values x all buffer lengths (symbolic)
 c14_buf!(c14_normal_t1, Normal, 35, 72, 2, 76);
+
+// ------------------------------------------------------------------ default configuration (K6):
+// body digits go through the external hex-simd crate, modelled by its documented contract
+// (harness/hexsimd.rs); header digits through the crate's own tables.
+//@ h=k6_fmt_short_p props=C04,C07,C14,C17 cfgs=K6 tier=q t=900 | funcs: Short::store_into_str_bytes(WithVersion) with feature simd (hex_simd::encode for the body) | bound: all values | stubs: hex_simd::encode/decode -> documented contract (upper-case digits into the first 2n bytes, panics if the output is too short; decode accepts both cases, Err on any non-digit)
+#[cfg(feature = "opt-simd-convert-hex")]
+c04_fmt_k6!(k6_fmt_short_p, Short, 1, 15, 32, true, 36);
+//@ h=k6_fmt_normal_e props=C04,C07 cfgs=K6 tier=q t=900 | funcs: Normal::store_into_str_bytes(Empty) with feature simd | bound: all values | stubs: hex-simd contract
+#[cfg(feature = "opt-simd-convert-hex")]
+c04_fmt_k6!(k6_fmt_normal_e, Normal, 1, 35, 72, false, 76);
+//@ h=k6_rt_short_pa props=C04,C07 cfgs=K6 tier=q t=900 | funcs: Short text round trip with feature simd | bound: all values | stubs: hex-simd contract
+#[cfg(feature = "opt-simd-convert-hex")]
+c04_rt_k6!(k6_rt_short_pa, Short, 15, 32, true, true, 36);
+//@ h=k6_rt_longl_ee props=C04,C07 cfgs=K6 tier=t t=1800 | funcs: LongWithLongChecksum text round trip with feature simd | bound: all values | stubs: hex-simd contract
+#[cfg(feature = "opt-simd-convert-hex")]
+c04_rt_k6!(k6_rt_longl_ee, LongWithLongChecksum, 69, 140, false, false, 144);
+//@ h=k6_parse_short_32 props=C05,C07,C17 cfgs=K6 tier=q t=900 | funcs: Short::from_str_bytes with feature simd (hex_simd::decode for the body) | bound: ALL byte strings of length 32 x 3 prefix modes | stubs: hex-simd contract
+#[cfg(feature = "opt-simd-convert-hex")]
+c05_parse_k6!(k6_parse_short_32, Short, 1, 15, 32, 32, 36, false);
+//@ h=k6_parse_normal_70 props=C05,C07 cfgs=K6 tier=q t=1200 | funcs: Normal::from_str_bytes with feature simd | bound: ALL byte strings of length 70 x 3 prefix modes | stubs: hex-simd contract
+#[cfg(feature = "opt-simd-convert-hex")]
+c05_parse_k6!(k6_parse_normal_70, Normal, 1, 35, 72, 70, 76, false);
+//@ h=k6_buf_short_t1_30 props=C14,C17,C07 cfgs=K6 tier=q t=600 | funcs: Short::store_into_str_bytes(WithVersion) with feature simd, buffer of 30 bytes | bound: all values: BufferIsTooSmall, buffer untouched, and NO panic inside hex_simd::encode | stubs: hex-simd contract (incl. its documented panic)
+#[cfg(feature = "opt-simd-convert-hex")]
+c14_bufc_k6!(k6_buf_short_t1_30, Short, 15, 32, 2, 30, 40);
+//@ h=k6_buf_short_t1_31 props=C14,C17,C07 cfgs=K6 tier=q t=600 | funcs: Short::store_into_str_bytes(WithVersion) with feature simd, buffer of 31 bytes | bound: all values | stubs: hex-simd contract
+#[cfg(feature = "opt-simd-convert-hex")]
+c14_bufc_k6!(k6_buf_short_t1_31, Short, 15, 32, 2, 31, 40);
+//@ h=k6_buf_short_t1_96 props=C14,C07 cfgs=K6 tier=q t=600 | funcs: Short::store_into_str_bytes(WithVersion) with feature simd, oversized buffer of 96 bytes | bound: all values: bytes beyond 32 untouched (within the contract of hex_simd::encode) | stubs: hex-simd contract
+#[cfg(feature = "opt-simd-convert-hex")]
+c14_bufc_k6!(k6_buf_short_t1_96, Short, 15, 32, 2, 96, 40);
+//@ h=k6_buf_normal_hex_69 props=C14,C17,C07 cfgs=K6 tier=q t=900 | funcs: Normal::store_into_str_bytes(Empty) with feature simd, buffer of 69 bytes | bound: all values | stubs: hex-simd contract
+#[cfg(feature = "opt-simd-convert-hex")]
+c14_bufc_k6!(k6_buf_normal_hex_69, Normal, 35, 72, 1, 69, 80);
